@@ -12,6 +12,7 @@ import importlib
 import json
 import multiprocessing as mp
 import os
+import re
 import sys
 import time
 import traceback
@@ -134,6 +135,8 @@ def matches(entry, prop, contract, inst, obname):
     if m.get('contract') and m['contract'] != contract:
         return False
     if m.get('obligation_prefix') and not obname.startswith(m['obligation_prefix']):
+        return False
+    if m.get('obligation_regex') and not re.fullmatch(m['obligation_regex'], obname):
         return False
     if m.get('inst'):
         for k, v in m['inst'].items():
